@@ -931,6 +931,11 @@ def run_case(case, ctx):
                              "distances": dist}, mech)
         else:
             raise M.HarnessError("unknown query kind %r" % (kind,))
+        # aliasing: the list a query handed back belongs to the caller, who prunes it, tags it, empties it (request(i, j),
+        # the cell accessor used above, is not treated this way: it documents nothing about the list it returns)
+        if isinstance(r, list) and kind in ("nbh", "seg", "trk"):
+            M.scribble(r)
+            ctx.count("returned_list_modified_by_the_caller")
 
     nontrivial = demanded > 0 and g.cs * g.ls >= 2
     if g.cs * g.ls >= 50:
